@@ -49,9 +49,9 @@ def main():
         out["demo_patched_rc"] = rc1
         out["patch_applies"] = rca == 0
         if not skip_tests:
-            rct, ot = sh("/venv/bin/python -m pytest -q -p no:cacheprovider --timeout=900 --deselect tests/test_map_collection.py::test_maps 2>&1 | tail -3", cwd=scratch, timeout=1800)
+            rct, ot = sh("/venv/bin/python -m pytest -q -p no:cacheprovider --timeout=900 --deselect tests/test_map_collection.py::test_maps 2>&1 | tail -3", cwd=scratch, env=env, timeout=1800)
             out["tests_tail"] = ot.strip().splitlines()[-1] if ot.strip() else ""
-            out["tests_ok"] = "249 passed" in ot and "failed" not in ot
+            out["tests_ok"] = "249 passed" in ot and " failed" not in ot and " error" not in ot
     finally:
         sh("git -C %s worktree remove --force %s" % (REPO, scratch))
     out["verified"] = bool(out["patch_applies"] and out["demo_pristine_rc"] == 0 and out["demo_patched_rc"] != 0 and (skip_tests or out.get("tests_ok")))
